@@ -2,7 +2,7 @@
 
 Enumerated: ALL histories of depth <= 2 (quick) / <= 3 (thorough) over the alphabet of mc.hist (hist.OPS) (create unrelated
 UFL objects; generate an unrelated form / other dtype+options / expression / numba module; run a JIT request; change numpy
-print options) x PYTHONHASHSEED in {0,1,2,3} (quick; the deepest histories with {0,1}) / {0..15} (thorough), each in a fresh process; after the history all
+print options) x PYTHONHASHSEED in {0,1,2,3} (quick) / {0..15} (thorough) - the histories of maximal depth with {0,1} only -, each in a fresh process; after the history all
 target objects are generated in an order rotated per history (the first is observed under exactly that history, the later
 ones under the correspondingly longer legitimate histories; every target is first somewhere).
 Oracle: byte equality of compile_ufl_objects' output with the empty-history, seed-0 run.
@@ -45,7 +45,7 @@ def main():
     hs = histories(depth)
     items = []
     for i, h in enumerate(hs):
-        for s in (seeds if chk.thorough or len(h) < depth else seeds[:2]):
+        for s in (seeds if len(h) < depth else seeds[:2]):
             if h == () and s == 0:
                 continue
             items.append((h, s, (i + s) % len(hist.TARGETS)))
@@ -78,7 +78,7 @@ def main():
             samples.append(dict(history=r["history"], hash_seed=r["seed"], first_target=r["order"][0]))
     cov = dict(states=tot["processes"], transitions=sum(len(it[0]) for it in items), traces_validated_against_impl=tot["targets_generated"], evaluations=tot["targets_generated"],
                distinct_nontrivial=len(hs), totals=tot, differing_by_class=seen, samples=samples or [dict(note="none")], exhaustive=True,
-               rule=(f"all {len(hs)} histories of depth <= {depth} over the {len(hist.OPS)}-letter alphabet x {len(seeds)} hash seeds (quick tier: 2 seeds for the histories of maximal depth), one fresh process each; {len(hist.TARGETS)} targets generated per process in rotated order; "
+               rule=(f"all {len(hs)} histories of depth <= {depth} over the {len(hist.OPS)}-letter alphabet x {len(seeds)} hash seeds (2 seeds for the histories of maximal depth), one fresh process each; {len(hist.TARGETS)} targets generated per process in rotated order; "
                      "byte comparison with the empty-history seed-0 process"))
     chk.finish(cov, assumptions=["histories and hash seeds are bounded sets: a dependence needing a longer history or another seed is not found",
                                  "a target generated later in the process is observed under the history extended by the earlier targets (also a legitimate history)"])
